@@ -4,6 +4,7 @@ import Driver.Evq
 import Driver.EvqConc
 import Driver.StreamD
 import Driver.NetD
+import Driver.NodeD
 /-! `mio-driver`: reads one case per line (`<model> <args…>`), prints what the model computes.
 Imports model files only (no Mathlib, no lemma files), so it links as a native executable. -/
 open Mio Mio.Driver
@@ -17,6 +18,7 @@ def dispatch (line : String) : String :=
   | "vq" :: ws => runVq2 ws
   | "stream" :: ws => runStream ws
   | "net" :: ws => runNet ws
+  | "node" :: ws => runNode ws
   | _ => "bad-case"
 
 partial def loop (h : IO.FS.Stream) (out : IO.FS.Stream) : IO Unit := do
